@@ -437,7 +437,7 @@ fn c01_c08_scenario(name: &'static str, progs: Vec<Vec<COp>>, check_order: bool,
         let mut published: Vec<(u64, usize, u64, u64)> = vec![];
         let mut all_ids = BTreeSet::new();
         for (ri, c) in calls.iter().enumerate() {
-            if let (COp::Publish(_, n), R::Ids(Ok(ids))) = (&c.op, &c.result) {
+            if let (COp::Publish(_, n) | COp::PublishBig(_, n, _), R::Ids(Ok(ids))) = (&c.op, &c.result) {
                 if ids.len() != *n {
                     return ScenarioOut::viol(format!("{}/id-count", name), format!("Publish of {} messages returned {} ids", n, ids.len()));
                 }
@@ -557,6 +557,8 @@ pub fn c08_sched(thorough: bool) -> Vec<Unit> {
         ("cap2:pub‖pub‖pub", vec![vec![Publish(T0, 1)], vec![Publish(T0, 1)], vec![Publish(T0, 2)], vec![PullNow(S1, 1)]], (2, 2)),
         ("big-batch‖pub;pub", vec![vec![Publish(T0, 1001)], vec![Publish(T0, 1), Publish(T0, 2)]], (0, 0)),
         ("bigger-batch‖pub;pub", vec![vec![Publish(T0, 2500)], vec![Publish(T0, 1), Publish(T0, 1)]], (0, 0)),
+        ("big-payload-batch‖big-payload-batch", vec![vec![PublishBig(T0, 24, 100 * 1024)], vec![PublishBig(T0, 24, 100 * 1024)], vec![Publish(T0, 1)]], (0, 0)),
+        ("huge-payload-batch‖pub", vec![vec![PublishBig(T0, 3, 1200 * 1024)], vec![Publish(T0, 1), Publish(T0, 1)]], (0, 0)),
     ];
     for (n, p, caps) in progs {
         let dd = if n.contains("batch") { 2 } else if p.len() >= 4 { d - 1 } else { d };
@@ -636,4 +638,43 @@ pub fn c02_sched(thorough: bool) -> Vec<Unit> {
         ("stream‖pull;ack", vec![vec![Stream(S0, 1)], vec![PullNow(S0, 1), AckLast(S0), PullNow(S0, 1), AckLast(S0)]]),
     ];
     progs.into_iter().map(|(n, p)| explore_unit(format!("sched/{}", n), format!("{:?} on a subscription holding 3 messages; an ack that returned OK within the deadline is final (program deliveries + final drain), the other subscription keeps all its copies", p), Bounds::new(if p.len() >= 3 { d - 1 } else { d }), ExecCfg::default(), c02_scenario(n, p))).collect()
+}
+
+/// C01 (input mode): fan-out to MANY subscriptions of one topic.
+pub fn many_subscriptions_unit(thorough: bool) -> Unit {
+    let counts: Vec<usize> = if thorough { vec![3, 16, 17, 31, 32, 33, 40, 64, 65, 100, 257] } else { vec![3, 17, 33, 40, 65] };
+    let f: ScenFn = scen!([counts] |cx| {
+        let n = counts[cx.choose("subscriptions", counts.len())];
+        let a = cx.api.clone();
+        must!(cx, "setup:create-topic", { let a = a.clone(); async move { a.create_topic(T0).await } });
+        let names: Vec<String> = (0..n).map(|i| format!("projects/p/subscriptions/many-{:03}", i)).collect();
+        for s in &names {
+            let (a2, s2) = (a.clone(), s.clone());
+            must!(cx, "setup:create-sub", async move { a2.create_sub(&s2, T0, 10, None).await });
+        }
+        let mut ids = vec![];
+        for k in [1usize, 2] {
+            let r = must!(cx, "client:publish", { let a = a.clone(); async move { a.publish(T0, (0..k).map(|j| (format!("m{}-{}", k, j).into_bytes(), vec![])).collect()).await } });
+            ids.extend(r);
+        }
+        // delete one in the middle, publish again: everybody else still gets it
+        let gone = names[n / 2].clone();
+        must!(cx, "client:delete-sub", { let (a2, g) = (a.clone(), gone.clone()); async move { a2.delete_sub(&g).await } });
+        let late = must!(cx, "client:publish", { let a = a.clone(); async move { a.publish(T0, vec![(b"late".to_vec(), vec![])]).await } });
+        for s in &names {
+            if *s == gone {
+                continue;
+            }
+            let (a2, s2) = (a.clone(), s.clone());
+            let got = must!(cx, "client:pull", async move { a2.pull(&s2, 100, true).await });
+            let got_ids: Vec<String> = got.iter().map(|m| m.msg_id.clone()).collect();
+            let mut want = ids.clone();
+            want.extend(late.clone());
+            if got_ids != want {
+                return ScenarioOut::viol("fan-out/subscription-missed-messages", format!("{} subscriptions on one topic: {} received {:?}, the topic accepted {:?}", n, s, got_ids, want));
+            }
+        }
+        ScenarioOut { sample: Some(format!("{} subscriptions", n)), ..ScenarioOut::ok(format!("n={}", n)) }
+    });
+    explore_unit("input/many-subscriptions", format!("one topic with {:?} subscriptions, three publishes (one after deleting a subscription in the middle): every remaining subscription receives every message, in order", counts), Bounds::new(0), ExecCfg { points_on: false, max_steps: 500_000, ..Default::default() }, f)
 }
